@@ -63,6 +63,9 @@ OrigData(attrs) == IF Get(attrs, "null", FALSE) = TRUE THEN "orig-n" ELSE "orig-
 Field(t, attrs) == [ftype |-> t, attrs |-> attrs, rel |-> None, data |-> OrigData(attrs)]
 FKField(target, attrs) == [ftype |-> "FK", attrs |-> attrs, rel |-> target, data |-> OrigData(attrs)]
 IdField == Field("Auto", D1("primary_key", TRUE))
+IxFG   == [fields |-> <<"f", "g">>, name |-> "ix_fg", cond |-> None]
+IxCond == [fields |-> <<"f">>, name |-> "ix_cond", cond |-> "g"]      \* condition=Q(g__gt=0)
+IxH    == [fields |-> <<"h">>, name |-> "ix_h", cond |-> None]
 Model(name, fields, ut) == [table |-> TableOf(name), fields |-> fields,
                             ut |-> ut, uta |-> TRUE, idx |-> <<>>]
 
@@ -90,6 +93,19 @@ Start(id) ==
          B |-> Model("B", [id |-> IdField,
                            f |-> Field("Char", D1("max_length", 10)),
                            g |-> Field("Int", EmptyDict)], <<>>)]
+    [] id = 6 ->          \* table-level unique over a relation column and a db_column column
+        [A |-> Model("A", [id |-> IdField,
+                           f |-> FKField("B", EmptyDict),
+                           g |-> Field("Int", D1("db_column", "gcol"))], << <<"f", "g">> >>),
+         B |-> Model("B", [id |-> IdField,
+                           f |-> Field("Char", D1("max_length", 10))], <<>>)]
+    [] id = 7 ->          \* Meta.indexes: a two-column index and a conditional (partial) index
+        [A |-> [Model("A", [id |-> IdField,
+                            f |-> Field("Char", D1("max_length", 10)),
+                            g |-> Field("Int", EmptyDict)], <<>>)
+                  EXCEPT !.idx = <<IxFG, IxCond>>],
+         B |-> Model("B", [id |-> IdField,
+                           f |-> Field("Int", EmptyDict)], <<>>)]
     [] OTHER ->           \* one model only
         [A |-> Model("A", [id |-> IdField,
                            f |-> Field("Char", D1("max_length", 10)),
@@ -158,6 +174,15 @@ Alphabet ==
                   MAdd("A", x, "Int", D1("null", TRUE), None),
                   MDel("A", x) } \cup { MRenF("A", x, y) : y \in FieldNames \ {x} }
                 : x \in FieldNames }
+    [] AlphaId = 7 ->      \* Meta.indexes (plain and conditional) next to rebuilds of the same table
+        { MAdd("A", "h", "Int", D1("null", TRUE), None),
+          MAdd("A", "h", "Char", D1("max_length", 10), "i"),
+          MChg("A", "f", None, D1("max_length", 20), None),
+          MChg("A", "g", None, D1("null", TRUE), None),
+          MDel("A", "h"), MRenF("A", "f", "h"),
+          MMetaIdx("A", <<>>), MMetaIdx("A", <<IxFG>>), MMetaIdx("A", <<IxCond>>),
+          MMetaIdx("A", <<IxFG, IxCond, IxH>>),
+          MMetaUT("A", << <<"f", "g">> >>), MSQL }
     [] OTHER -> { MSQL }
 
 ---------------------------------------------------------------------------
@@ -500,6 +525,10 @@ Bump(counts, key, n) == IF n = 0 THEN counts ELSE Put(counts, key, Get(counts, k
 (* walk a mutation list run by ONE AppMutator: split into ModelMutator groups
    (adjacent equal model_name), fold the ops into merge groups, count the
    merge groups that contain a rebuild, collect hazards *)
+(* TRUE: DatabaseState.rename_table moves the tracked indexes along with a
+   renamed table (as repaired, d61d5fe); FALSE: as originally found *)
+StateFollowsTableRename == TRUE
+
 RECURSIVE Plan(_, _, _, _, _)
 Plan(ms, sig, curModel, g, acc) ==
     IF ms = <<>> THEN [acc EXCEPT !.haz = @ \cup g.haz]
@@ -512,7 +541,8 @@ Plan(ms, sig, curModel, g, acc) ==
                      tix  == sig[mu.m].ut # <<>> \/ sig[mu.m].idx # <<>>
                      g1   == OpsFold(OpsOf(mu, sig), gs, tix)
                      stale == mu.k \in {"Meta", "Add", "Chg", "Del"}
-                              /\ (sig[mu.m].table \in acc.ren \/ sig[mu.m].table \in acc.renf)
+                              /\ ((~StateFollowsTableRename /\ sig[mu.m].table \in acc.ren)
+                                  \/ sig[mu.m].table \in acc.renf)
                      shrunk == mu.k = "Del" /\ \E i \in 1..Len(sig[mu.m].ut) :
                                    InSeq(mu.f, sig[mu.m].ut[i]) /\ Len(sig[mu.m].ut[i]) > 1
                      onto == mu.k = "RenF" /\ mu.nf \in DOMAIN sig[mu.m].fields
@@ -578,6 +608,12 @@ Extend(mu) ==
           \* unique_together only ever names fields the model has
           /\ ((mu.k = "Meta" /\ mu.prop = "unique_together")
                 => \A i \in 1..Len(mu.val) : SeqSet(mu.val[i]) \subseteq DOMAIN cur[mu.m].fields)
+          \* Meta.indexes only ever names fields the model has (the simulation
+          \* does not check this; SQL generation raises FieldDoesNotExist)
+          /\ ((mu.k = "Meta" /\ mu.prop = "indexes")
+                => \A i \in 1..Len(mu.ival) :
+                      /\ SeqSet(mu.ival[i].fields) \subseteq DOMAIN cur[mu.m].fields
+                      /\ (mu.ival[i].cond # None => mu.ival[i].cond \in DOMAIN cur[mu.m].fields))
           \* a relation is only ever added towards a model that exists
           /\ ((mu.k = "Add" /\ "related_model" \in DOMAIN mu.attrs)
                 => mu.attrs["related_model"] \in DOMAIN cur)
